@@ -19,10 +19,39 @@ package matchrule
 //@   callee ToLower(s)
 //@     pure
 
+// match: a negative answer is given only after every configured value was tried
+// (both loops run to the end: the values are not sorted by length, a value longer
+// than the data is skipped, not the rest of the list); a positive one only after a
+// comparison said yes; with case_insensitive the data is lowered exactly once, with
+// the unicode-aware bytes.ToLower (Prepare lowers the values with strings.ToLower);
+// the compared window is the value-long head (prefix) or tail (suffix) of the data.
+
 //@ func (*Rule).match
 //@   requires r.maxValueSize >= 0
-//@   loop 1 invariant true
-//@   loop 2 invariant true
+//@   requires r.Mode == ModeContains || r.Mode == ModePrefix || r.Mode == ModeSuffix
+//@   ghost nlower int = 0
+//@   ghost lasteq bool = false
+//@   ensures result ==> lasteq
+//@   ensures !result && len(raw) >= r.minValueSize && r.Mode == ModeContains ==> rangeindex >= len(r.Values) - 1
+//@   ensures !result && len(raw) >= r.minValueSize && r.Mode != ModeContains ==> rangeindex#2 >= len(r.Values) - 1
+//@   ensures len(raw) >= r.minValueSize ==> nlower == ite(r.CaseInsensitive, 1, 0)
+//@   loop 1 invariant nlower == ite(r.CaseInsensitive, 1, 0) && !lasteq && rangeindex < len(r.Values)
+//@   loop 2 invariant nlower == ite(r.CaseInsensitive, 1, 0) && !lasteq && rangeindex#2 < len(r.Values)
+//@   callee ToLower(b) (lo)
+//@     requires nlower == 0
+//@     pure
+//@     ensures len(lo) == len(b) || true
+//@     set nlower := nlower + 1
+//@   callee Contains(a, b) (c)
+//@     requires sameblock(a, data) && len(a) == len(data) && len(b) == len(r.Values[i])
+//@     pure
+//@     set lasteq := c
+//@   callee Equal(a, b) (c)
+//@     requires len(a) == len(b) && len(b) == len(value) && sameblock(a, cutData)
+//@     requires r.Mode == ModePrefix ==> off(a) == off(cutData)
+//@     requires r.Mode == ModeSuffix ==> off(a) + len(a) == off(cutData) + len(cutData)
+//@     pure
+//@     set lasteq := c
 
 // Match: the configured inversion is applied to the outcome of the comparison for
 // every value, short ones included (no result is produced before the inversion).
@@ -30,6 +59,7 @@ package matchrule
 //@ func (*Rule).Match
 //@   requires r.prepared
 //@   requires r.maxValueSize >= 0
+//@   requires r.Mode == ModeContains || r.Mode == ModePrefix || r.Mode == ModeSuffix
 //@   ghost gm bool = false
 //@   ghost ncmp int = 0
 //@   ensures ncmp == 1 && result == (gm != r.Invert)
